@@ -194,6 +194,12 @@ func (g *group) wrapExcessAliases(grid [][]Candidate, descriptions []string) {
 		breakeven += width + 1
 	}
 
+	// Always keep one column, even when it is wider than half of the
+	// terminal, otherwise the wrapping loop below never terminates.
+	if maxColumns == 0 && len(g.columnsWidth) > 0 {
+		maxColumns = 1
+	}
+
 	var rows [][]Candidate
 
 	for rowIndex := range grid {
